@@ -1431,7 +1431,7 @@ class Compiler:
         for name in node.names:
             if not node.local:
                 assignment += template(
-                    "rcontext[KEY] = __value", KEY=ast.Constant(
+                    "rcontext[KEY] = econtext[KEY]", KEY=ast.Constant(
                         str(name)))
 
         return assignment
